@@ -155,7 +155,7 @@ func lsGitSuffixed(root int, p string) bool {
 
 func lsGenMut(g kit.G, m *lsGenModel, def []int, later bool) lsMut {
 	pickRoot := func(label string) int {
-		if g.Bool(78, label+"-def") {
+		if g.Bool(88, label+"-def") {
 			return kit.Pick(g, def, label)
 		}
 		return g.Int(0, len(lsRootPool)-1, label)
@@ -279,7 +279,7 @@ func lsGenMut(g kit.G, m *lsGenModel, def []int, later bool) lsMut {
 }
 
 func lsGenCmd(g kit.G, m *lsGenModel, def []lsArg, step, nsteps int) lsCmd {
-	if step > 0 && step < nsteps-1 && g.Bool(12, "remove") || (step == nsteps-1 && step > 0 && g.Bool(5, "remove-last")) {
+	if step > 0 && step < nsteps-1 && g.Bool(16, "remove") || (step == nsteps-1 && step > 0 && g.Bool(6, "remove-last")) {
 		cmd := lsCmd{Op: "remove"}
 		n := 1
 		if g.Bool(15, "twosel") {
@@ -289,12 +289,12 @@ func lsGenCmd(g kit.G, m *lsGenModel, def []lsArg, step, nsteps int) lsCmd {
 			var s lsSel
 			k := g.Int(0, 99, "selkind")
 			switch {
-			case k < 45:
+			case k < 40:
 				s = lsSel{Kind: "nth-name", N: g.Int(0, 5, "seln")}
-			case k < 65:
+			case k < 58:
 				s = lsSel{Kind: "nth-source", N: g.Int(0, 5, "seln")}
-			case k < 85:
-				s = lsSel{Kind: "nth-junk", N: g.Int(0, 5, "seln"), Junk: kit.Pick(g, []string{"prefix", "dotgit", "longer", "base"}, "junk")}
+			case k < 88:
+				s = lsSel{Kind: "nth-junk", N: g.Int(0, 5, "seln"), Junk: kit.Pick(g, []string{"prefix", "prefix", "prefix", "dotgit", "longer", "base"}, "junk")}
 			case len(m.repos) > 0 && k < 92:
 				r := kit.Pick(g, m.repos, "selrepo")
 				s = lsSel{Kind: "source", Root: r.Root, Path: r.Path}
@@ -372,7 +372,7 @@ func lsGen(rt *rapid.T) lsCase {
 			nm = 0 // a command on an unchanged layout (everything up to date)
 		}
 		if s == 0 {
-			nm = g.Int(2, 6, "nmuts0")
+			nm = 2 + kit.Pick(g, []int{1, 2, 3, 4, 5}, "nmuts0")
 		}
 		for j := 0; j < nm; j++ {
 			st.Muts = append(st.Muts, lsGenMut(g, m, defIdx, s > 0))
